@@ -26,6 +26,11 @@ BOUNDS = [(0, None), (0, None), (0, 0), (0, 1), (0, 2), (0, 3), (1, None), (1, 1
           (2, 3), (3, None), (3, 3), (0, 5), (2, 6)]
 
 
+def gen_source(rnd):
+    """how the assigned value is built: a plain container, or an ownerless trait container of the same trait"""
+    return rnd.choice(["plain", "plain", "plain", "deepcopy", "deepcopy", "orphan"])
+
+
 def header(kind):
     corr, law, _ = KINDS[kind]
     return IMPORTS + "Definition corr_codes := %s.\nDefinition law_codes := %s." % (corr, law)
@@ -58,9 +63,10 @@ def gen_list(rnd, ctx, maxops, maxinit):
     for op in case["ops"]:
         if rnd.random() < 0.12:
             n = rnd.choice([0, 1, 2, 3, 4, bounds[0], (bounds[1] or 0) + 1])
-            a = ["Assign", rnd.random() < 0.85, c05.gen_items(rnd, case["vk"], n, [])]
+            src = gen_source(rnd)
+            a = ["Assign", src != "plain" or rnd.random() < 0.85, c05.gen_items(rnd, case["vk"], n, []), src]
             ops.append(a)
-            ctx.count("op:list.Assign")
+            ctx.count("op:list.Assign-" + src)
         ops.append(op)
     case.update(kind="list", ops=ops)
     ctx.count("bounds:%s..%s" % bounds)
@@ -124,7 +130,8 @@ def gen_set(rnd, ctx, maxops):
         elif k == "SymDiffUpdate":
             op = [k, items()]
         else:
-            op = ["Assign", rnd.random() < 0.85, items()]
+            src = gen_source(rnd)
+            op = ["Assign", src != "plain" or rnd.random() < 0.85, items(), src]
         ops.append(op)
         ctx.count("op:set." + k)
     return dict(kind="set", vk=vk, init=init, ops=ops)
@@ -195,7 +202,8 @@ def gen_dict(rnd, ctx, maxops):
         elif k in ("PopItem", "Clear"):
             op = [k]
         else:
-            op = ["Assign", rnd.random() < 0.85, pairs()]
+            src = gen_source(rnd)
+            op = ["Assign", src != "plain" or rnd.random() < 0.85, pairs(), src]
         ops.append(op)
         ctx.count("op:dict." + k)
     return dict(kind="dict", kk=kk, vk=vk, init=init, ops=ops)
@@ -203,7 +211,14 @@ def gen_dict(rnd, ctx, maxops):
 
 # ---------------------------------------------------------------- List(List(T))
 def raw_term(r):
-    return C("RBad") if r is None else C("RList", list(r))
+    if r is None:
+        return C("RBad")
+    return C("RList", list(r["loose"] if isinstance(r, dict) else r))
+
+
+def maybe_loose(rnd, v):
+    """sometimes offer the list as an ownerless trait list of the inner trait instead of a plain list"""
+    return {"loose": v} if (v is not None and rnd.random() < 0.2) else v
 
 
 def nop_term(op):
@@ -251,14 +266,14 @@ def gen_nested(rnd, ctx, maxops):
     def raw():
         r = rnd.random()
         if r < 0.6:
-            return valid_inner()
+            return maybe_loose(rnd, valid_inner())
         if r < 0.7:
             return None                                     # not a list
         if r < 0.85:
             v = valid_inner() or [1]
             v[rnd.randrange(len(v))] = rnd.choice([200, 105, 201])      # invalid / convertible element
-            return v
-        return [rnd.randint(0, 9) for _ in range(rnd.choice([0, 1, 2, 3, 4, 5]))]   # possibly illegal length
+            return maybe_loose(rnd, v)
+        return maybe_loose(rnd, [rnd.randint(0, 9) for _ in range(rnd.choice([0, 1, 2, 3, 4, 5]))])  # maybe illegal length
 
     n0 = rnd.randint(ob[0], ob[1] if ob[1] is not None else ob[0] + 3)
     init = [[max(a, 1) for a in valid_inner()] for _ in range(n0)]
@@ -287,7 +302,7 @@ def gen_nested(rnd, ctx, maxops):
         elif k in ("NReverse", "NClear"):
             op = [k]
         elif k == "NAssign":
-            op = [k, None if rnd.random() < 0.15 else [raw() for _ in range(rnd.randint(0, 4))]]
+            op = [k, None if rnd.random() < 0.15 else [raw() for _ in range(rnd.randint(0, 4))], gen_source(rnd)]
         else:
             j = rnd.randint(0, max(n, 1))
             cur = [0, 1, 2]
@@ -344,15 +359,15 @@ def gen_ndict(rnd, ctx, maxops):
         """(raw list or None, is it rejectable)"""
         r = rnd.random()
         if r < 0.6:
-            return valid_inner(), False
+            return maybe_loose(rnd, valid_inner()), False
         if r < 0.7:
             return None, True
         if r < 0.85:
             v = valid_inner() or [1]
             v[rnd.randrange(len(v))] = rnd.choice([200, 105, 201])
-            return v, True
+            return maybe_loose(rnd, v), True
         v = [rnd.randint(0, 9) for _ in range(rnd.choice([0, 1, 2, 3, 4, 5]))]
-        return v, not (ib[0] <= len(v) and (ib[1] is None or len(v) <= ib[1]))
+        return maybe_loose(rnd, v), not (ib[0] <= len(v) and (ib[1] is None or len(v) <= ib[1]))
 
     init = [[100 + j, [max(a, 1) for a in valid_inner()]] for j in rnd.sample(range(5), rnd.randint(0, 3))]
     present = [k for k, _ in init]
@@ -373,7 +388,7 @@ def gen_ndict(rnd, ctx, maxops):
                     continue
                 ps.append([key, v])
                 bad = bad or b or key < 100 or key >= 200
-            op = [k, ps, bad]
+            op = [k, ps, gen_source(rnd) if k == "Assign" else bad]
         elif k == "SetDefault":
             key = okey() if rnd.random() < 0.8 else rnd.choice([3, 200])
             v, bad = raw_bad()
@@ -401,8 +416,11 @@ TERMS = {"list": list_term, "set": set_term, "dict": dict_term, "nested": nested
 
 
 def op_name(kind, op):
+    if op[0] in ("Assign", "NAssign"):
+        src = [x for x in op[1:] if isinstance(x, str)]
+        return op[0] + ("-" + src[0] if src and src[0] != "plain" else "")
     if kind == "list":
-        return "Assign" if op[0] == "Assign" else c05.op_shape(op)
+        return c05.op_shape(op)
     if kind == "nested" and op[0] == "NInner":
         return "NInner/" + c05.op_shape(op[2])
     if kind == "ndict" and op[0] == "Inner":
@@ -437,6 +455,22 @@ def corpus():
         ["Pop", None], ["Pop", None], ["Pop", None], ["Remove", 1], ["DelInt", 0], ["Imul", 0], ["Imul", -1],
         ["Assign", True, []], ["Assign", True, [1, 2, 3, 4]], ["Assign", True, [1, 105]], ["Assign", False, [1]],
         ["Assign", True, [5]], ["Sort", True], ["Reverse"], ["SetInt", 0, 200], ["SetInt", 5, 200]]))
+    cs.append(dict(kind="list", vk="VInt", minlen=1, maxlen=3, init=[1, 2], ops=[
+        ["Assign", True, [1, 105], "deepcopy"], ["Assign", True, [1, 2, 3, 4], "deepcopy"], ["Assign", True, [], "orphan"],
+        ["Assign", True, [3, 200], "orphan"], ["Assign", True, [7, 8], "deepcopy"], ["Assign", True, [9], "orphan"]]))
+    cs.append(dict(kind="set", vk="VInt", init=[1, 2], ops=[
+        ["Assign", True, [1, 105], "deepcopy"], ["Assign", True, [3, 200], "orphan"], ["Assign", True, [7, 8], "deepcopy"]]))
+    cs.append(dict(kind="dict", kk="VInt", vk="VInt", init=[[1, 2]], ops=[
+        ["Assign", True, [[1, 105]], "deepcopy"], ["Assign", True, [[105, 1]], "deepcopy"], ["Assign", True, [[200, 1]], "orphan"],
+        ["Assign", True, [[3, 200]], "orphan"], ["Assign", True, [[7, 8]], "deepcopy"], ["Assign", True, [[5, 6]], "orphan"]]))
+    cs.append(dict(kind="nested", vk="VInt", ib=[0, 2], ob=[1, 3], init=[[1], [2, 3]], ops=[
+        ["NAssign", [[1], {"loose": [1, 2, 3]}], "plain"], ["NAssign", [[1], {"loose": [105]}], "deepcopy"],
+        ["NAssign", [{"loose": [4, 5]}, [6]], "orphan"], ["NAppend", {"loose": [1, 2, 3]}], ["NSetInt", 0, {"loose": [200]}],
+        ["NAssign", [[1], [2], [3], [4]], "deepcopy"], ["NSetInt", 0, {"loose": [9]}]]))
+    cs.append(dict(kind="ndict", vk="VInt", ib=[0, 2], init=[[100, [1]]], ops=[
+        ["Assign", [[101, [1, 2, 3]]], "deepcopy"], ["Assign", [[101, {"loose": [1, 2, 3]}]], "deepcopy"],
+        ["Assign", [[3, [1]]], "orphan"], ["Assign", [[101, {"loose": [105]}]], "plain"], ["SetItem", 102, {"loose": [1, 200]}, True],
+        ["Assign", [[101, {"loose": [4, 5]}], [102, [6]]], "orphan"], ["SetItem", 103, {"loose": [7]}, False]]))
     cs.append(dict(kind="list", vk="VCInt", minlen=2, maxlen=None, init=[1, 2], ops=[
         ["Pop", 0], ["DelInt", 9], ["DelSlice", [0, 1, None]], ["SetSlice", [0, 2, None], [105]],
         ["SetSlice", [0, 2, None], [105, 106, 7]], ["Extend", [103, 200]], ["Extend", [103]],
@@ -500,7 +534,7 @@ def mutator_obligation(ctx):
 
 
 def run(ctx):
-    ok, log = ctx.proofs(PROPS)
+    join_proofs = c05.start_proofs(ctx, PROPS)
     ctx.cov["trusted_base"] += [
         "tools/drivers/c04_driver.py, c05_driver.py (atom <-> Python value mapping, recording notifiers on every reachable "
         "container) and tools/props/c04.py, c05.py (generators; for Dict(Str, List(Int)) the generator also says whether "
@@ -515,7 +549,7 @@ def run(ctx):
                        "case is non-trivial if some step raises; distinct = distinct JSON of the case")
     rnd = random.Random(ctx.seed)
     quick = ctx.tier == "quick"
-    counts = dict(list=(1100, 12, 8), set=(500, 10), dict=(600, 10), nested=(600, 10), ndict=(450, 10)) if quick else \
+    counts = dict(list=(500, 12, 8), set=(250, 10), dict=(300, 10), nested=(300, 10), ndict=(250, 10)) if quick else \
         dict(list=(12000, 30, 20), set=(6000, 25), dict=(8000, 25), nested=(8000, 25), ndict=(5000, 25))
     if ctx.replay:
         rep = json.load(open(ctx.replay))["replay"]
@@ -529,20 +563,22 @@ def run(ctx):
         groups["dict"] += [gen_dict(rnd, ctx, counts["dict"][1]) for _ in range(counts["dict"][0])]
         groups["nested"] += [gen_nested(rnd, ctx, counts["nested"][1]) for _ in range(counts["nested"][0])]
         groups["ndict"] += [gen_ndict(rnd, ctx, counts["ndict"][1]) for _ in range(counts["ndict"][0])]
+    jobs = []
     for kind, cases in groups.items():
         if not cases:
             continue
         ctx.sample(cases[0])
         ctx.count("cases:" + kind, len(cases))
-        rel = "C04.Corr.%s (model = implementation on every step)" % KINDS[kind][0]
-        hist.run(ctx, DRIVER, cases, TERMS[kind], header(kind), KINDS[kind][2], key_fn, describe, nontrivial,
-                 relation=rel, tag="c04" + kind)
+        jobs.append(dict(driver=DRIVER, cases=cases, to_term=TERMS[kind], header=header(kind), case_type=KINDS[kind][2],
+                         key_fn=key_fn, describe=describe, nontrivial=nontrivial, tag="c04" + kind,
+                         relation="C04.Corr.%s (model = implementation on every step)" % KINDS[kind][0]))
+    hist.run_parallel(ctx, jobs)
     if not ctx.replay:
         # single-operation grid on bounded List traits (the C05 grid, model and law of C04): every mutator x every
         # index / slice x every replacement list on lists at, below and above their bounds
         if quick:
             cfgs = [dict(target="obj", vk=rnd.choice(["VInt", "VCInt"]), n=n, minlen=mn, maxlen=mx)
-                    for (n, mn, mx) in ((1, 1, 2), (2, 0, 2), (3, 2, 4))]
+                    for (n, mn, mx) in rnd.sample([(1, 1, 2), (2, 0, 2), (3, 2, 4), (2, 2, 2), (3, 1, 3)], 2)]
             gb, gbs = 2, 250
         else:
             cfgs = [dict(target="obj", vk=vk, n=n, minlen=mn, maxlen=mx)
@@ -555,4 +591,5 @@ def run(ctx):
                                   key_fn=key_fn, describe=describe, nontrivial=nontrivial),
                      mk_case=lambda c: dict(c, kind="list"), driver=DRIVER)
         mutator_obligation(ctx)
+    ok, log = join_proofs()
     proof_gate(ctx, ok, log, PROPS)
